@@ -382,7 +382,9 @@ Section Genesis.
   Definition import_agg (ps : list token_pair) : outcome store := import_agg_from ps [].
 
   (** [common.IsHexAddress]: optional 0x / 0X, then exactly 40 hex digits *)
-  Definition is_hex_digit (b : byte) : bool := match unhexdigit b with Some _ => true | None => false end.
+  Definition is_hex_digit (b : byte) : bool :=
+    let n := Byte.to_N b in
+    ((48 <=? n) && (n <=? 57)) || ((97 <=? n) && (n <=? 102)) || ((65 <=? n) && (n <=? 70)).
   Definition strip_0x (s : bytes) : bytes :=
     match s with
     | x30 :: x78 :: r => r
